@@ -65,6 +65,9 @@ def judgeClip (L : Lines) (A : Operand) (rhs : Tok) : String :=
   match rhs with
   | "panic" :: m => s!"SPEC {cls} panic {" ".intercalate m}"
   | "mutated" :: _ => s!"SPEC {cls} an-operand-was-modified-by-the-call"
+  -- the model's result is a fresh value: a result that shares memory with an operand or whose pieces share
+  -- memory differs from the model (not a statement of the property: DIFF)
+  | "aliased" :: m => s!"DIFF {cls} result-shares-memory {" ".intercalate m}"
   | "crash" :: m => s!"SPEC {cls} crash {" ".intercalate m}"
   | "timeout" :: m => s!"SPEC {cls} timeout {" ".intercalate m}"
   | "ok" :: rt =>
